@@ -32,9 +32,9 @@ def make_jobs(ctx):
     usr = us + ['wasiFDReaddir.0:5', 'setup_dir.0:18', 'strcat.0:20', 'strcpy.0:20', 'strlen.0:20']
     # the model directory size is fixed per query (0..3 entries); names have 1,2,3 bytes
     for dn in ((3,) if ctx.quick else (0, 1, 2, 3)):
-        jobs.append(wasi_job('c14_paths.c', 'readdir_all', witnesses=['end'], defs=['-DDN=%d' % dn], name='c14_readdir_all_n%d' % dn, unwind=12, unwindset=usr, timeout=t, sample={'entries': dn}))
+        jobs.append(wasi_job('c14_paths.c', 'readdir_all', witnesses=['end'], defs=['-DDN=%d' % dn], name='c14_readdir_all_n%d' % dn, unwind=12, unwindset=usr, timeout=t, backends=['sat'], sample={'entries': dn}))
     for dn in ((2,) if ctx.quick else (2, 3)):
-        jobs.append(wasi_job('c14_paths.c', 'readdir_resume', witnesses=['end'], defs=['-DDN=%d' % dn], name='c14_readdir_resume_n%d' % dn, unwind=12, unwindset=usr, timeout=t, sample={'entries': dn}))
-    jobs.append(wasi_job('c14_paths.c', 'readdir_truncated', witnesses=['end', 'header written'], defs=['-DDN=2'], unwind=12, unwindset=usr, timeout=t))
-    jobs.append(wasi_job('c14_paths.c', 'readdir_lstat', witnesses=['end', 'lstat used'], defs=['-DDN=1'], unwind=12, unwindset=usr, timeout=t))
+        jobs.append(wasi_job('c14_paths.c', 'readdir_resume', witnesses=['end'], defs=['-DDN=%d' % dn], name='c14_readdir_resume_n%d' % dn, unwind=12, unwindset=usr, timeout=t, backends=['sat'], sample={'entries': dn}))
+    jobs.append(wasi_job('c14_paths.c', 'readdir_truncated', witnesses=['end', 'header written'], defs=['-DDN=2'], unwind=12, unwindset=usr, timeout=t, backends=['sat']))
+    jobs.append(wasi_job('c14_paths.c', 'readdir_lstat', witnesses=['end', 'lstat used'], defs=['-DDN=1'], unwind=12, unwindset=usr, timeout=t, backends=['sat']))
     return jobs
